@@ -510,7 +510,23 @@ func R78() Rule {
 				limitIf, counterLoc = ifi, loc
 			}
 			if limitIf == nil {
-				c.Bad("R78", base+"/limit-tested", cb.Pos(), "the walk callback never compares a page counter with maxResults: a page holds as many entries as the bucket has")
+				// the accounting may live in a helper of the callback (`page.admit()`): not decided here; it is a
+				// violation only when nothing the callback reaches compares anything with maxResults
+				found := false
+				for _, f := range P.Scope(cb, func(f *ssa.Function) bool { return core.PkgPathOf(f) != core.PkgGcsemu }) {
+					for _, b := range f.Blocks {
+						if ifi, ok := lastIf(b); ok {
+							if bin, ok := ifi.Cond.(*ssa.BinOp); ok && (flowsFrom(P, bin.X, isMax, map[ssa.Value]bool{}, 0) || flowsFrom(P, bin.Y, isMax, map[ssa.Value]bool{}, 0)) {
+								found = true
+							}
+						}
+					}
+				}
+				if found {
+					c.Ok("R78", base+"/limit-tested-in-a-helper", cb.Pos(), false, "the page accounting is done by a helper of the callback (not decided here)")
+				} else {
+					c.Bad("R78", base+"/limit-tested", cb.Pos(), "the walk callback never compares a page counter with maxResults: a page holds as many entries as the bucket has")
+				}
 				continue
 			}
 			okEdge := limitIf.Block().Succs[notFull]
